@@ -251,14 +251,12 @@ class CFG:
         return out
 
 
-_CACHE: Dict[int, CFG] = {}
-
-
 def cfg_of(func) -> CFG:
-    c = _CACHE.get(id(func.node))
+    """CFG of a function, cached on its AST node (safe across in-memory program variants)."""
+    c = getattr(func.node, "_hvsa_cfg", None)
     if c is None:
         c = CFG(func.node)
-        _CACHE[id(func.node)] = c
+        func.node._hvsa_cfg = c
     return c
 
 
